@@ -62,11 +62,19 @@ Definition allp (n : nat) (f : nat -> nat -> bool) : bool :=
   forallb (fun a => forallb (f a) (seq 0 n)) (seq 0 n).
 (* standardised binary32 array handed to the kernels, N, tau_max, corr_range,
    returned values and lags *)
+(* The kernel accumulates in binary32, the model in exact rationals: when two
+   lags are (nearly) tied for the absolute maximum the kernel may report the
+   other one.  A reported lag is then accepted iff it is a lag of the window
+   and attains the model's maximum up to the same tolerance as the value. *)
+Definition near_tie (a : arr3) (cr tau_max i j : nat) (l : Z) (best : Q) : bool :=
+  (0 <=? l)%Z && (l <=? Z.of_nat tau_max)%Z &&
+  close (1 # 1000000) (Qabs (cc_all a cr tau_max i j (Z.to_nat l))) (Qabs best).
 Definition check_max (c : list (list (list Q)) * nat * nat * nat * list (list Q) * list (list Z)) : bool :=
   let '(A, n, tau_max, cr, V, L) := c in
   allp n (fun i j => if Nat.eqb i j then close (0#1) (m2 V i j) 1 && Z.eqb (z2 L i j) 0
                      else let r := cc_max (a3 A) cr tau_max i j in
-                          close (1 # 1000000) (fst r) (m2 V i j) && Z.eqb (wrap 8 (snd r)) (z2 L i j)).
+                          close (1 # 1000000) (fst r) (m2 V i j) &&
+                          (Z.eqb (wrap 8 (snd r)) (z2 L i j) || near_tie (a3 A) cr tau_max i j (z2 L i j) (fst r))).
 Definition check_all (c : list (list (list Q)) * nat * nat * nat * list (list (list Q))) : bool :=
   let '(A, n, tau_max, cr, F) := c in
   allp n (fun i j => forallb (fun l => close (1 # 1000000) (cc_all (a3 A) cr tau_max i j l)
